@@ -372,3 +372,30 @@ def selection_complete(ctx, prog):
     t = [f"{norm_text(x.target)} = {norm_text(x.value)}" if isinstance(x, ast.AnnAssign) else norm_text(x) for x in oe.stmts((ast.Assign, ast.AnnAssign))]
     ok = "self.txo = txo" in t and "self.txi = Input.spend(txo)" in t and "self.fee = self.txi.get_fee(ledger)" in t and "self.effective_amount = txo.amount - self.fee" in t
     ctx.ob("C03-D5/SELECT", ok, oe.site(), "a candidate's effective amount is its amount minus the fee of the input that spends it", func=oe.fi.qualname, key="C03-D5/SELECT|effective")
+    # the exact-match search: its tests are those of the reference algorithm (Bitcoin Core's SelectCoinsBnB).  It is the only strategy that can fund a
+    # payment within one change-output cost of the whole balance (the fall-backs aim at target + cost of change), so pruning it too eagerly turns
+    # a fundable "send max" into a spurious insufficient-funds refusal
+    bb = ctx.fa(f"{CS}.branch_and_bound")
+    q = bb.fi.qualname
+    tests = [x.test for x in bb.stmts((ast.If, ast.While))]
+    want = ["self.tries < MAXIMUM_TRIES",
+            "current_value + current_available_value < self.target or current_value > self.target + self.cost_of_change",
+            "current_value >= self.target", "new_waste <= best_waste", "backtrack", "current_selection and not current_selection[-1]", "not current_selection",
+            "current_selection and not current_selection[-1] and previous_utxo and utxo.effective_amount == previous_utxo.effective_amount and utxo.fee == previous_utxo.fee",
+            "best_selection"]
+    miss = [w for w in want if not any(R.same_test(t_, w) for t_ in tests)]
+    extra = [norm_text(t_) for t_ in tests if not any(R.same_test(t_, w) for w in want)]
+    ctx.ob("C03-D5/SELECT", not miss and not extra, bb.site(), "exact-match search: the loop bound, the two pruning tests, the improvement test, the backtracking walk and the skip-equivalent-coin "
+           "test (which applies only right after the previous, equal coin was excluded) are the reference algorithm's", detail=f"missing {miss}; unexpected {extra}" if miss or extra else "",
+           func=q, key=f"C03-D5/SELECT|{q}|tests")
+    R.effect_table(ctx, "C03-D5/SELECT", bb, want, [
+        ("current_value = 0", "", "the search starts with nothing selected"),
+        ("current_available_value = available", "", "…and everything available"),
+        ("best_waste = self.cost_of_change", "", "a solution may overshoot by at most the cost of a change output"),
+        ("best_selection = current_selection[:]", "current_value >= self.target", "a better solution is copied"),
+        ("current_selection.append(True)", "not backtrack", "the next coin is explored as included first"),
+        ("current_value += utxo.effective_amount", "not backtrack", "…and counted"),
+        ("current_selection.append(False)", "not backtrack", "a coin equivalent to the one just excluded is skipped"),
+        ("return [txos[i] for i, include in enumerate(best_selection) if include]", "best_selection", "the best selection's coins are returned"),
+        ("return []", "not best_selection", "no exact match: the next strategy is consulted"),
+    ], "exact-match search: ")
